@@ -21,8 +21,11 @@ HELPERS = {
     "min_keep": lambda c: di.min(c, drop_na=False), "sum_keep": lambda c: di.sum(c, drop_na=False), "std_keep": lambda c: di.std(c, drop_na=False),
     "var_keep": lambda c: di.var(c, drop_na=False), "mode_keep": lambda c: di.mode(c, drop_na=False), "last_drop": lambda c: di.last(c, drop_na=True),
     "nth1_drop": lambda c: di.nth(c, 1, drop_na=True),
+    # a non-default ddof: Numba's np.std / np.var take no ddof, so these must not be routed to a compiled kernel
+    "std_ddof1": lambda c: di.std(c, ddof=1), "var_ddof1": lambda c: di.var(c, ddof=1),
 }
-NUMERIC_ONLY = {"mean", "median", "quantile", "std", "var", "sum", "quantile_keep", "mean_keep", "median_keep", "sum_keep", "std_keep", "var_keep"}
+NUMERIC_ONLY = {"mean", "median", "quantile", "std", "var", "sum", "quantile_keep", "mean_keep", "median_keep", "sum_keep", "std_keep", "var_keep",
+                "std_ddof1", "var_ddof1"}
 
 
 def frames():
@@ -33,6 +36,8 @@ def frames():
     yield "date", DataFrame(g=[1, 1, 2, 3, 3, 3], x=Vector(["2020-01-02", nat, nat, "2021-01-01", "2020-01-01", "2021-01-01"], "datetime64[D]"))
     yield "timedelta", DataFrame(g=[1, 1, 2, 3, 3, 3], x=Vector([1, np.timedelta64("NaT"), np.timedelta64("NaT"), 5, 5, 2], "timedelta64[D]"))
     yield "float_nonan", DataFrame(g=[2, 1, 2, 1], x=Vector([4.0, 3.0, 2.0, 1.0], float))
+    yield "float32", DataFrame(g=[1, 1, 2, 3, 3, 3], x=Vector(np.array([0.5, np.nan, np.nan, 1.5, 7.0, np.nan], np.float32)))
+    yield "datetime", DataFrame(g=[1, 1, 2, 3, 3, 3], x=Vector(["2020-01-02T03:04:05", nat, nat, "2021-01-01T00:00:00", "2020-01-01T12:00:00", "2021-01-01T00:00:00"], "datetime64[us]"))
     yield "ties", DataFrame(g=[1, 1, 1, 1, 2, 2, 2, 2, 2, 3], x=Vector([1, 2, 2, 1, 3, 1, 2, 2, 1, 7], int))
     yield "empty", DataFrame(g=Vector([], int), x=Vector([], float))
 
@@ -60,10 +65,13 @@ def main():
     res = {}
     for h in order:
         for name, d in frames():
-            if h in NUMERIC_ONLY and name in ("date", "timedelta"):
+            if h in NUMERIC_ONLY and name in ("date", "datetime", "timedelta"):
                 continue
-            if h in ("all", "any") and name in ("date", "timedelta"):
+            if h in ("all", "any") and name in ("date", "datetime", "timedelta"):
                 continue
+            if h == "median_keep" and name == "float32":
+                continue        # the known finding on np.median and NaN under Numba is pinned on the float64 frame
+
             try:
                 out = d.group_by("g").aggregate(y=HELPERS[h]("x"))
                 res[f"{h}/{name}"] = [enc(out.y), str(out.y.dtype)]
